@@ -11,6 +11,8 @@ MONITORS = ['C07']
 
 def run(ctx):
     machine_prop.run(ctx, FAMILIES, MONITORS)
+    # dates that are inexact in binary floating point: the block must end at EXACTLY the date (implementation only)
+    machine_prop.run(ctx, [('untils', 60, 1500, {'float_times': True})], MONITORS, model=False)
 
 
 def search(ctx):
